@@ -105,6 +105,14 @@ def generate(rng, tier, seed):
         base = seed * 1000 + rng.randrange(1000)
         cases.append(mk(threads, [], [], ["random", base, 30 if thorough else 12]))
         cases.append(mk(threads, [], [], ["pct", 3, base, 16 if thorough else 6]))
+    # two schedulers: a task running on A's worker posts to B, whose worker is parked on its empty queue (a wake-up that is skipped
+    # "because the poster is a worker thread" is lost: the flag is per thread, not per queue)
+    for _ in range(10 if thorough else 4):
+        base = seed * 1000 + rng.randrange(1000)
+        scn = ["conc", ["objects", ["sched", "new_thread"], ["sched", "new_thread"]], ["init", ["post", 1, 1]],
+               ["threads", ["c0", ["sleep", 5], ["post", 0, 2, ["post", 1, 3]], ["sleep", 5], ["post", 0, 4, ["post", 1, 5], ["post", 1, 6]]]], ["fini", ["sleep", 5]],
+               ["sched", "random", base, 12 if thorough else 6]]
+        cases.append({"scn": scn, "sched": ["random", base, 12 if thorough else 6], "kind": "new_thread", "two": True})
     # default scheduler: post runs the task synchronously
     for _ in range(20 if thorough else 6):
         tid[0] = 0
@@ -123,17 +131,26 @@ def sched_of(case, ob):
     return s
 
 
-def abstract(ob):
-    """cobs -> (abstract history, worker tids, per-task (start pos, end pos, tid))"""
+def abstract(ob, sched=None):
+    """cobs -> (abstract history, worker tids, per-task (start pos, end pos, tid)); sched: only the events of that scheduler object"""
     hist, tasks, order = [], {}, []
+    owner = {}
+    for r in ob["ev"]:
+        if r[3] == "call" and r[4][0] in ("post", "post-guarded"):
+            owner[str(r[4][2])] = str(r[4][1])
+    mine = lambda t: sched is None or owner.get(str(t)) == str(sched)
     for pos, r in enumerate(ob["ev"]):
         tid, tag = r[2], r[3]
         if tag in ("call", "ret"):
             a = r[4]
             if a[0] in ("post", "post-guarded"):
-                hist.append([tag, tid, "post", a[2]])
+                if mine(a[2]):
+                    hist.append([tag, tid, "post", a[2]])
             elif a[0] == "abort":
-                hist.append([tag, tid, "stop"])
+                if sched is None or str(a[1]) == str(sched):
+                    hist.append([tag, tid, "stop"])
+        elif tag in ("task-start", "task-end") and not mine(r[4]):
+            continue
         elif tag == "task-start":
             hist.append(["start", r[4]])
             tasks[r[4]] = [pos, None, tid]
@@ -156,6 +173,14 @@ def judge(cases, runs):
             sd = sched_of(case, ob)
             if ob["status"] != "ok" or ob.get("panics", 0):
                 viol.append((ci, sd, "run ended with status %s panics %s %s: a call into the scheduler did not return" % (ob["status"], ob.get("panics"), ob.get("msg", ""))))
+                continue
+            if case.get("two"):
+                # two schedulers, no abort: each one's history is judged on its own; both workers are parked at quiescence
+                for sidx in (0, 1):
+                    h2, t2, _o = abstract(ob, sidx)
+                    acc_in.append(sx.dumps(["hist", "waiting"] + h2))
+                    where.append((ci, sd, h2, "waiting"))
+                    nontriv.add(sx.dumps(h2) + "two")
                 continue
             hist, tasks, order = abstract(ob)
             names = set(n[0] for n in ob["names"])
